@@ -14,10 +14,21 @@
 (* Two interfaces with the same name but different methods must get        *)
 (* different classes, the same interface the same class: invariant         *)
 (* CacheFaithful (the class handed out for i exposes ProxyNames of i).     *)
+(* Interface 3 extends interface 1.  LookupInherited = TRUE is the design  *)
+(* "keep the class on the interface and find it with an attribute lookup   *)
+(* that follows inheritance": 3 asked after 1 is handed 1's class          *)
+(* (UriProxyCheck_inherit.cfg must violate CacheFaithful).                 *)
+(* The provider a tcp:// URI yields is a value: every query answers the    *)
+(* listed endpoints in order (ProviderIsValue).  OneShot = TRUE is the     *)
+(* design "keep a one-shot iterator, hand out list(it)": only the first    *)
+(* query is right (UriProxyCheck_oneshot.cfg must violate it).             *)
 (***************************************************************************)
 EXTENDS UriProxy
 
-CONSTANTS MaxLen        \* longest probe string
+CONSTANTS MaxLen,           \* longest probe string
+          Probes,           \* kinds of probes explored
+          LookupInherited,  \* cache lookup follows inheritance
+          OneShot           \* the static provider keeps a one-shot iterator
 
 \* alphabet: "a", "1", ",", ":", "/", "#", "_"
 Alpha == {97, 49, 44, 58, 47, 35, 95}
@@ -34,36 +45,55 @@ Eps == {<<>>, <<97>>, <<97, 49, 95>>}
 Names == {<<97>>, <<US, 97>>, <<97, US>>, <<US, US, 97>>, <<97, US, US>>, <<US, US, 97, US, US>>,
           <<US>>, <<US, US>>, <<97>> \o AsyncSuffix, <<97, 49>>}
 
-VARIABLES probe, cache, made
-pvars == <<probe, avars, cache, made>>
+VARIABLES probe, cache, made, handed, answers
+pvars == <<probe, avars, cache, made, handed, answers>>
 
 \* interface identities 1..3; 1 and 2 share a name (the key a broken cache might use)
 IfaceName(i) == IF i = 3 THEN "B" ELSE "A"
 IfaceMethods(i) == CASE i = 1 -> {<<97>>} [] i = 2 -> {<<97, 49>>, <<US, 97>>} [] i = 3 -> {<<97>>, <<97, US, US>>}
+\* interface 3 extends interface 1 (0: no base interface)
+Parent(i) == IF i = 3 THEN 1 ELSE 0
 
 PInit ==
-  /\ probe \in [k : {"str"}, s : Strings(MaxLen), c : {44, 58}]
+  /\ probe \in {p \in [k : {"str"}, s : Strings(MaxLen), c : {44, 58}]
              \cup [k : {"tcp"}, l : ServerLists, tail : {<<>>, <<Slash>>}]
              \cup [k : {"zk"}, l : ServerLists, p : Paths, ep : Eps]
              \cup [k : {"other"}, sch : {<<>>, <<116, 99>>, <<116, 99, 112, 112>>, <<107, 122>>, <<104, 116, 116, 112>>},
                    l : {x \in ServerLists : Len(x) = 1}]
              \cup [k : {"names"}, ns : SUBSET Names]
              \cup [k : {"cache"}]
+             \cup [k : {"prov"}, l : ServerLists] : p.k \in Probes}
   /\ AInit
   /\ cache = <<>>       \* interface identity -> class id
   /\ made = <<>>        \* class id -> method names the class was generated from
+  /\ handed = <<>>      \* interface identity -> class id last handed out for it
+  /\ answers = <<>>     \* "prov": what the provider answered, query by query
 
-\* CreateServiceClient(i): look up by identity, else build a fresh class
+\* CreateServiceClient(i): look up by identity (LookupInherited: or find a base interface's entry), else
+\* build a fresh class
+Found(i) == IF i \in DOMAIN cache THEN cache[i]
+            ELSE IF LookupInherited /\ Parent(i) \in DOMAIN cache THEN cache[Parent(i)]
+            ELSE 0
+PutIn(f, k, v) == [j \in DOMAIN f \cup {k} |-> IF j = k THEN v ELSE f[j]]
 Create(i) ==
   /\ probe.k = "cache"
   /\ Len(made) < 4
-  /\ IF i \in DOMAIN cache
-       THEN UNCHANGED <<cache, made>>
+  /\ IF Found(i) # 0
+       THEN handed' = PutIn(handed, i, Found(i)) /\ UNCHANGED <<cache, made>>
        ELSE /\ made' = Append(made, IfaceMethods(i))
-            /\ cache' = [j \in DOMAIN cache \cup {i} |-> IF j = i THEN Len(made) + 1 ELSE cache[j]]
-  /\ UNCHANGED <<probe, avars>>
+            /\ cache' = PutIn(cache, i, Len(made) + 1)
+            /\ handed' = PutIn(handed, i, Len(made) + 1)
+  /\ UNCHANGED <<probe, avars, answers>>
 
-PNext == \E i \in 1..3 : Create(i)
+\* GetServers() on the provider parsed from tcp://<probe.l>
+Want == [i \in DOMAIN probe.l |-> HostPort(probe.l[i])]
+Query ==
+  /\ probe.k = "prov"
+  /\ Len(answers) < 3
+  /\ answers' = Append(answers, IF OneShot /\ answers # <<>> THEN <<>> ELSE Want)
+  /\ UNCHANGED <<probe, avars, cache, made, handed>>
+
+PNext == (\E i \in 1..3 : Create(i)) \/ Query
 PSpec == PInit /\ [][PNext]_pvars
 
 FormatServers(l) == Join(l, Comma)
@@ -115,4 +145,9 @@ CacheFaithful ==
   probe.k = "cache" =>
     /\ \A i \in DOMAIN cache : made[cache[i]] = IfaceMethods(i)
     /\ \A i, j \in DOMAIN cache : (i # j) => cache[i] # cache[j]
+    /\ \A i \in DOMAIN handed : made[handed[i]] = IfaceMethods(i)
+
+ProviderIsValue ==
+  probe.k = "prov" =>
+    \A q \in DOMAIN answers : answers[q] = ParseTcp(FormatServers(probe.l))
 =============================================================================
